@@ -10,17 +10,31 @@ TARGET = os.path.join(build.BUILD, 'replay-target')
 _built = {}
 
 
+def _replay_dir():
+    """the crate in place for /repo; a path-substituted copy when checking another tree (VERIF_REPO)"""
+    if build.REPO == '/repo':
+        return REPLAY_DIR
+    dst = os.path.join(build.BUILD, 'replay-src')
+    if os.path.exists(dst):
+        shutil.rmtree(dst)
+    shutil.copytree(REPLAY_DIR, dst, ignore=shutil.ignore_patterns('target', 'Cargo.lock'))
+    t = open(os.path.join(dst, 'Cargo.toml')).read().replace('"/repo/', '"%s/' % build.REPO)
+    open(os.path.join(dst, 'Cargo.toml'), 'w').write(t)
+    return dst
+
+
 def ensure_built(profile):
     if profile in _built:
         return _built[profile]
-    shutil.copyfile(os.path.join(build.REPO, 'Cargo.lock'), os.path.join(REPLAY_DIR, 'Cargo.lock'))
+    rdir = _built.setdefault('#dir', _replay_dir())
+    shutil.copyfile(os.path.join(build.REPO, 'Cargo.lock'), os.path.join(rdir, 'Cargo.lock'))
     env = dict(os.environ)
     env['CARGO_NET_OFFLINE'] = 'true'
     env.pop('RUSTFLAGS', None)
     cmd = ['cargo', 'build', '--offline', '--target-dir', TARGET]
     if profile == 'release':
         cmd.append('--release')
-    r = subprocess.run(cmd, cwd=REPLAY_DIR, env=env, stdout=subprocess.PIPE, stderr=subprocess.STDOUT, text=True)
+    r = subprocess.run(cmd, cwd=rdir, env=env, stdout=subprocess.PIPE, stderr=subprocess.STDOUT, text=True)
     if r.returncode != 0:
         _built[profile] = (None, r.stdout[-3000:])
     else:
